@@ -370,6 +370,23 @@ def _selection(case, tmp):
     folder = os.path.join(tmp, "sim")
     os.mkdir(folder)
     shutil.copy(cfile, os.path.join(folder, "initParams.json"))
+    if case["seed"] % 3 == 0:
+        # a folder that holds the parameter file but no checkpoint yet: the restart entry point starts the run (time 0, the
+        # initial distribution of the fresh set-up)
+        def prog0(rank):
+            comm = MPI.COMM_WORLD
+            g, c, t = setups.setupFromFile(folder, comm=comm, layout='v_parallel')
+            g0, _c, _t = setups.setupCylindricalGrid('v_parallel', constantFile=cfile, comm=comm)
+            return t, bool(np.array_equal(g.getAllData(), g0.getAllData())), g.currentLayout
+        w0 = MPI.run_world(P, prog0, timeout=300)
+        e0 = w0.first_error()
+        if e0 is not None:
+            return result(VIOL, cls=["selection/no-checkpoint-yet"], events=dict(w0.events), key="C18:selection-exception:%s" % type(e0[1]).__name__,
+                          what="setupFromFile on a folder without checkpoints: rank %d raised %r" % (e0[0], e0[1]), witness={"case": case, "traceback": (w0.tracebacks[e0[0]] or "")[-2000:]})
+        for t0, same, lay0 in w0.results:
+            if t0 != 0 or not same or lay0 != 'v_parallel':
+                return result(VIOL, cls=["selection/no-checkpoint-yet"], events=dict(w0.events), key="C18:selection/no-checkpoint-yet",
+                              what="setupFromFile on a folder without checkpoints returned time %r, layout %r, initial data equal to the fresh set-up: %r" % (t0, lay0, same), witness={"case": case})
     # the checkpoints are written in a shuffled order (as after a restart from an older time point that re-writes
     # later ones): modification order and directory order say nothing about the simulation time
     import time as _time
